@@ -673,9 +673,95 @@ pub fn gen_links(r: &mut crate::util::Rng) -> String {
     format!("sim C18 {}", cmds.join(" ; "))
 }
 
+/// An auto-addressed service (`enable_addr_auto`) on a daemon whose OS interface table changes:
+/// a second address (other subnet or other family) appears on an interface in use, one address of
+/// a multi-address interface is replaced, a whole interface appears or disappears, a
+/// single-address interface changes its address.  The service must follow: new addresses are
+/// probed and announced after the next interface check, removed ones are not sent any more.
+/// `tag`: "sim C18" (monitor MonLink.monitorAuto) or "sim2 C12" (the same history under two
+/// schedulers: the probes on a new interface must be woken for, not wait for the next check).
+pub fn gen_auto_follow(r: &mut crate::util::Rng, tag: &str) -> String {
+    use crate::util::hex;
+    let hx = |s: &str| hex(s.as_bytes());
+    type Row = (&'static str, u32, &'static str, u8);
+    let t0: Vec<Row> = match r.below(4) {
+        0 => vec![("eth0", 2, "192.168.1.10", 24)],
+        1 => vec![("eth0", 2, "192.168.1.10", 24), ("eth0", 2, "fe80::10", 64)],
+        2 => vec![("eth0", 2, "192.168.1.10", 24), ("eth1", 3, "10.0.0.5", 8)],
+        _ => vec![("eth0", 2, "192.168.1.10", 24), ("eth0", 2, "10.2.0.5", 16)],
+    };
+    let table = |t: &[Row]| -> String {
+        let mut s = format!("{}", t.len());
+        for (n, i, ip, p) in t {
+            s.push_str(&format!(" {} {} {} {}", hx(n), i, ip, p));
+        }
+        s
+    };
+    let ipint = *r.pick(&[1u64, 1, 5]);
+    let mut cmds: Vec<String> = vec![format!("daemon {}", table(&t0)), format!("ipint 0 {}", ipint)];
+    if r.chance(3, 4) {
+        cmds.push("monitor 0 900".to_string());
+    }
+    let mut now = 1_000_000u64;
+    cmds.push(format!("run {}", now));
+    cmds.push(format!("jit 0 {}", r.pick(&[0u64, 100, 249])));
+    cmds.push(format!("register 0 {} {} {} 80 0 0 1 1", hx("_x._udp.local."), hx("auto"), hx("autohost.local.")));
+    // past the first interface check (start + 5 s), announced twice
+    now += 6000;
+    cmds.push(format!("run {}", now));
+    let mut cur = t0.clone();
+    for _ in 0..r.range(1, 2) {
+        let has = |c: &[Row], ip: &str| c.iter().any(|x| x.2 == ip);
+        match r.below(7) {
+            // a second IPv4 address, other subnet, on eth0
+            0 if !has(&cur, "10.2.0.5") => cur.push(("eth0", 2, "10.2.0.5", 16)),
+            // the other family on eth0
+            1 if !has(&cur, "fe80::10") => cur.push(("eth0", 2, "fe80::10", 64)),
+            // one address of a multi-address interface replaced
+            2 if has(&cur, "fe80::10") => {
+                cur.retain(|x| x.2 != "fe80::10");
+                cur.push(("eth0", 2, "fe80::11", 64));
+            }
+            2 if has(&cur, "10.2.0.5") => {
+                cur.retain(|x| x.2 != "10.2.0.5");
+                cur.push(("eth0", 2, "10.2.0.9", 16));
+            }
+            // a new interface
+            3 if !has(&cur, "172.16.0.5") => cur.push(("eth2", 4, "172.16.0.5", 16)),
+            // a single-address interface changes its address (deleted and added again)
+            4 if cur.iter().filter(|x| x.1 == 2).count() == 1 && has(&cur, "192.168.1.10") => {
+                cur.retain(|x| x.2 != "192.168.1.10");
+                cur.push(("eth0", 2, "192.168.1.11", 24));
+            }
+            // an address / interface disappears (never the last one)
+            5 if cur.len() > 1 => {
+                let k = r.below(cur.len() as u64) as usize;
+                cur.remove(k);
+            }
+            _ => {
+                if !has(&cur, "10.0.0.5") {
+                    cur.push(("eth1", 3, "10.0.0.5", 8));
+                } else {
+                    cur.retain(|x| x.2 != "10.0.0.5");
+                }
+            }
+        }
+        cmds.push(format!("ifaces 0 {}", table(&cur)));
+        now += ipint * 1000 + *r.pick(&[3500u64, 5000, 7000]);
+        cmds.push(format!("run {}", now));
+    }
+    now += 2000;
+    cmds.push(format!("run {}", now));
+    format!("{} {}", tag, cmds.join(" ; "))
+}
+
 pub fn generate_daemon(r: &mut crate::util::Rng, tier: &str, emit: &mut dyn FnMut(String)) {
     let n = if tier == "thorough" { 3000 } else { 300 };
-    for _ in 0..n {
-        emit(gen_links(r));
+    for k in 0..n {
+        if k % 5 == 4 {
+            emit(gen_auto_follow(r, "sim C18"));
+        } else {
+            emit(gen_links(r));
+        }
     }
 }
